@@ -16,7 +16,10 @@ import (
 
 // SCHED part of C03: concurrent proposals / gossip deliveries of the same transaction on one node.
 
-func c03Body(ops []string) func(x *sched.X) {
+func c03Body(ops []string) func(x *sched.X) { return c03BodyOpt(ops, true) }
+
+// c03BodyOpt: withAfter adds a follow-up proposal after the concurrent phase (it validates, and may drop, the tips left behind).
+func c03BodyOpt(ops []string, withAfter bool) func(x *sched.X) {
 	return func(x *sched.X) {
 		vsched.Quiet(true)
 		nd := world.GetNodes("G")
@@ -53,6 +56,10 @@ func c03Body(ops []string) func(x *sched.X) {
 					res[i] = "add1=" + world.ErrClass(w.Deliver(ctx, 0, v1))
 				case "add2":
 					res[i] = "add2=" + world.ErrClass(w.Deliver(ctx, 0, v2))
+				case "createX":
+					// an unrelated proposal that may pick the freshly admitted vertex as its parent
+					_, err := w.Propose(ctx, 0, w.Tx("x", R, A, 1, 0))
+					res[i] = "createX=" + world.ErrClass(err)
 				}
 			}))
 		}
@@ -61,6 +68,9 @@ func c03Body(ops []string) func(x *sched.X) {
 		vsched.Quiet(true)
 		x.Obs = append(x.Obs, res...)
 		x.Vars["res"] = res
+		if !withAfter {
+			return
+		}
 		// the transaction must be usable afterwards exactly like any sealed transaction: a further proposal builds on the tips
 		_, err := w.Propose(ctx, 0, w.Tx("after", R, A, 1, 0))
 		x.Obsf("after=%s", world.ErrClass(err))
@@ -82,8 +92,21 @@ func c03Oracle(name string) func(x *sched.X, r *vsched.Result) []common.Violatio
 		}
 		ok := 0
 		for _, s := range x.Vars["res"].([]string) {
-			if strings.HasSuffix(s, "=ok") {
+			if strings.HasSuffix(s, "=ok") && !strings.HasPrefix(s, "createX") {
 				ok++
+			}
+		}
+		if ok >= 1 {
+			// a submission that reported success must be in the ledger afterwards
+			held := 0
+			snap := w.Nodes[0].Book.VerifSnapshot()
+			for _, v := range append(snap.Vertices, snap.Stored...) {
+				if w.Ref.TxLabels[v.Transaction.Hash] == "dup" {
+					held++
+				}
+			}
+			if held == 0 {
+				out = append(out, common.Violation{Predicate: "C03.accepted-stays", Key: "C03.accepted-vertex-lost", What: fmt.Sprintf("%s: a submission of the transaction reported success (%v) but no vertex of the ledger holds it afterwards", name, x.Vars["res"])})
 			}
 		}
 		if ok > 1 {
@@ -109,6 +132,7 @@ func c03Scenarios() map[string]*sched.Scenario {
 	add("add||add-same-vertex", "add1", "add1")
 	add("add||add-two-sealers", "add1", "add2")
 	add("create||add||add", "create", "add1", "add2")
+	add("add||add-same-vertex||create-other", "add1", "add1", "createX")
 	return m
 }
 
@@ -128,7 +152,7 @@ func c03SchedRun(rep *common.Report, procs int) (exhaustive bool, diverged int) 
 	for _, n := range names {
 		for s := 0; s < shards; s++ {
 			p, d := pre, sd
-			if n == "create||add||add" && common.Tier() != "thorough" {
+			if (n == "create||add||add" || n == "add||add-same-vertex||create-other") && common.Tier() != "thorough" {
 				p, d = 1, 2 // three clients: one pre-emption in the quick tier
 			}
 			jobs = append(jobs, sched.Job{Scenario: n, Preempt: p, Data: 1, Sched: d, ShardI: s, ShardN: shards, BudgetS: budget})
